@@ -19,7 +19,8 @@ ALLOW = {
     (r"PartialEq<emit_core::template::Template<'b>>>::eq$", "index:slice"):
         (4, "a[ati..] / b[bti..] with ati <= a.len() (reset to 0 when a fragment is consumed) and parts[ai..] with ai <= len at loop exit"),
     (r"PartialEq<emit_core::template::Template<'b>>>::eq$", "assert:overflow:Add"):
-        (6, "cursors bounded by fragment / part counts"),
+        (2, "ati += len / bti += len with len = min(a[ati..].len(), b[bti..].len()): the offsets stay within their fragments "
+            "(the part indices' `+ 1` steps are discharged by the loop guard `ai < a.len() && bi < b.len()`)"),
 }
 
 
@@ -190,6 +191,37 @@ def run(chk):
                     return False
         return any(rb in reach for rb in b.return_blocks())
 
+    mixed = []
+    n_kinds = len(P.adt("emit_core::template::PartKind")["variants"])
+    kinds_side = {}
+
+    def _emptiness_tests(start):
+        """is_empty() / len() == 0 decisions reachable from `start` within the current iteration: (block, non-empty target, empty target, call)"""
+        heads = tuple(h for _, h in eqb.back_edges())
+        region = eqb.reachable_from(start, removed_blocks=heads)
+        out = []
+        for bb, t in eqb.switches():
+            if bb not in region:
+                continue
+            so, pos = mir.norm_bool(eqb.switch_origin(bb))
+            c = None
+            if so[0] == "call" and so[1].callee.get("name") == "is_empty":
+                c = so[1]
+            elif so[0] == "binop" and so[1] == "Eq":
+                for x, y in ((so[2], so[3]), (so[3], so[2])):
+                    if x[0] == "call" and x[1].callee.get("name") == "len" and mir.o_const_value(y) == 0:
+                        c = x[1]
+            if c is None:
+                continue
+            ne = em = None
+            for v, tgt in [(v, n) for v, n in t["targets"]] + [("otherwise", t["otherwise"])]:
+                if ((str(v) != "0") == pos):
+                    em = tgt
+                else:
+                    ne = tgt
+            out.append((bb, ne, em, c))
+        return out
+
     def mismatch_is_false():
         """In the lock-step loop every comparison that can tell the templates apart ends the comparison with `false` on its unequal edge: the
         byte comparison of the common text prefix, the comparison of two hole labels, and a part-kind mismatch (text against hole)."""
@@ -224,7 +256,9 @@ def run(chk):
                         return False, "a left-over text fragment that is not empty (test at %s) does not make the templates unequal" % so[1].loc, [], so[1].loc
                 ev.append(so[1].loc)
         # kind mismatch: along one iteration, the discriminants read from the two indexed parts differ -> false
-        kinds = {}
+        kinds = kinds_side
+        kinds.clear()
+        del mixed[:]
         for bb, t in eqb.switches():
             so = eqb.switch_origin(bb)
             if eqb.in_cycle(bb) and so[0] == "discr":
@@ -251,14 +285,93 @@ def run(chk):
                     listed = {str(x) for x, _ in t["targets"]}
                     for v2, tgt2 in [(v2, n2) for v2, n2 in t2["targets"]] + [("otherwise", t2["otherwise"])]:
                         same = (str(v2) == str(v)) if v != "otherwise" and v2 != "otherwise" else None
-                        if same is False and not _direct_false(eqb, tgt2):
-                            return False, "a text part compared against a hole (kinds %s / %s) does not make the templates unequal" % (v, v2), [], eqb.span
-                        if v2 == "otherwise" and v != "otherwise" and not _direct_false(eqb, tgt2):
-                            return False, "a part-kind mismatch does not make the templates unequal", [], eqb.span
+                        if same is False:
+                            # text against hole: unequal unless the text fragment is empty (R1g decides the empty case)
+                            tests = _emptiness_tests(tgt2)
+                            if not tests and not _direct_false(eqb, tgt2):
+                                return False, "a text part compared against a hole (kinds %s / %s) does not make the templates unequal" % (v, v2), [], eqb.span
+                            for tb, nonempty_tgt, empty_tgt, c in tests:
+                                if not _direct_false(eqb, nonempty_tgt):
+                                    return False, ("a non-empty text part compared against a hole (kinds %s / %s, test at %s) does not make the "
+                                                   "templates unequal" % (v, v2, c.loc)), [], c.loc
+                            mixed.append((fb, sb, v, v2, tgt2, tests))
+                        if v2 == "otherwise" and v != "otherwise":
+                            if len(t2["targets"]) >= n_kinds:
+                                continue   # every variant has its own edge: the `otherwise` edge is the compiler's unreachable filler
+                            tests = _emptiness_tests(tgt2)
+                            if not tests and not _direct_false(eqb, tgt2):
+                                return False, "a part-kind mismatch does not make the templates unequal", [], eqb.span
+                            for tb, nonempty_tgt, empty_tgt, c in tests:
+                                if not _direct_false(eqb, nonempty_tgt):
+                                    return False, "a non-empty text part compared against a hole (test at %s) does not make the templates unequal" % c.loc, [], c.loc
+                            mixed.append((fb, sb, v, "other", tgt2, tests))
                 if v == "otherwise" and tgt not in kinds and not _direct_false(eqb, tgt):
                     return False, "an unexpected part kind does not make the templates unequal", [], eqb.span
         return True, "", ev
-    chk.ob("C16.R1e:mismatch-is-false", "differing text bytes, differing hole labels and a text/hole mismatch each end the comparison with false", mismatch_is_false)
+    chk.ob("C16.R1e:mismatch-is-false", "differing text bytes, differing hole labels and a (non-empty) text / hole mismatch each end the comparison with false", mismatch_is_false)
+
+    def empty_fragment_skipped():
+        """`the same text between them however that text is split into fragments`: an *empty* text fragment facing a hole is text-neutral, so the
+        comparison must not answer `false` there - it steps over the empty fragment (that side's part index only) and goes on.  Structural part: on
+        each of the two text-against-hole edges of the lock-step loop there is an emptiness test of the text side's own fragment whose empty edge
+        returns to the loop head without returning, stepping exactly that side's part index."""
+        if not mixed:
+            raise mir.AnchorMissing("text-against-hole edges in the lock-step loop of Template::eq")
+        heads = tuple(h for _, h in eqb.back_edges())
+        # the part index of each side: the local that indexes the `parts()` slice in the kind decision
+        side_idx = {}
+        for bb, t in eqb.switches():
+            so = eqb.switch_origin(bb)
+            if eqb.in_cycle(bb) and so[0] == "discr":
+                x = so[1]
+                il = None
+                while x[0] in ("field", "downcast", "index", "deref", "ref", "copy"):
+                    if x[0] == "index" and len(x) > 2 and x[2] and x[2][0] == "local":
+                        il = x[2][1]
+                    x = x[1]
+                if x[0] == "call" and x[1].callee.get("name") == "parts" and il is not None:
+                    side_idx[x[1].bb] = il
+        text_discr = None
+        ad = P.adt("emit_core::template::PartKind")
+        for i, vn in enumerate(ad["variants"]):
+            if vn["name"] == "Text":
+                text_discr = str(vn.get("discr", i))
+        ev = []
+        for fb, sb, v, v2, tgt2, tests in mixed:
+            first_side, second_side = kinds_side[fb], kinds_side[sb]
+            text_side = first_side if str(v) == text_discr else (second_side if str(v2) in (text_discr, "other") else None)
+            if text_side is None or text_side not in side_idx:
+                raise mir.AnchorMissing("the text side of a text-against-hole edge in Template::eq")
+            if not tests:
+                return False, ("a text fragment facing a hole makes the templates unequal without its emptiness being examined: `[\"\", {x}]` and "
+                               "`[{x}]` have the same holes and the same text between them but compare unequal (an empty fragment must be stepped over)"), [], eqb.span
+            good = False
+            for tb, ne, em, c in tests:
+                ro = eqb.origin(c.args[0], through_calls=("get", "as_ref", "deref", "as_str", "as_bytes", "borrow"))
+                x = ro
+                while x[0] in ("field", "downcast", "index", "deref", "ref", "copy"):
+                    x = x[1]
+                if not (x[0] == "call" and x[1].callee.get("name") == "parts" and x[1].bb == text_side):
+                    continue   # a test of something else (e.g. the other side)
+                region = eqb.reachable_from(em, removed_blocks=heads)
+                if any(rb in region for rb in eqb.return_blocks()):
+                    return False, "an empty text fragment facing a hole (test at %s) can still end the comparison" % c.loc, [], c.loc
+                stepped = set()
+                for bb in region:
+                    for st in eqb.blocks[bb]["stmts"]:
+                        if st["k"] == "assign" and st["rv"]["k"] == "binop" and st["rv"]["op"].startswith("Add"):
+                            stepped.add(panics._raw_local(eqb, st["rv"]["a"], bb))
+                if stepped != {side_idx[text_side]}:
+                    return False, ("stepping over an empty text fragment facing a hole (test at %s) advances %s; exactly the text side's part index "
+                                   "must step (the hole stays to be compared)" % (c.loc, sorted(eqb.local_name(l) or "_%d" % l for l in stepped if l is not None) or "nothing")), [], c.loc
+                good = True
+                ev.append(c.loc)
+            if not good:
+                return False, "on a text-against-hole edge the emptiness test is not of the text side's own fragment", [], eqb.span
+        if len(mixed) < 2:
+            raise mir.AnchorMissing("both text-against-hole edges (text left / text right) in Template::eq")
+        return True, "", ev
+    chk.ob("C16.R1g:empty-fragment-skipped", "an empty text fragment facing a hole is stepped over (that side's part index only), never a mismatch", empty_fragment_skipped)
 
     def cursors_mirror():
         """The four cursors of the lock-step loop come in two mirrored pairs (part index and byte offset, for `self` and for `other`).  What is done
